@@ -79,6 +79,39 @@ class FloatShim(float, metaclass=_FloatMeta):
     pass
 
 
+import enum as _enum
+
+
+class _SymEnumMeta(_enum.EnumMeta):
+    """Enum lookup by a symbolic value: compared against each member in definition order
+    (each comparison is decided, i.e. forks) instead of hashing the symbol."""
+
+    def __call__(cls, value, *a, **k):
+        if not a and not k and (E.is_symint(value) or isinstance(value, E.SBool)):
+            for m in cls:
+                if value == m.value:
+                    return m
+            raise ValueError(f"{value!r} is not a valid {cls.__qualname__}")
+        if not a and not k and E.is_np_scalar(value):
+            value = E.strip_np(value)
+        return super().__call__(value, *a, **k)
+
+
+class _SymEnum(_enum.Enum, metaclass=_SymEnumMeta):
+    pass
+
+
+class _SymIntEnum(int, _SymEnum):
+    pass
+
+
+_enum_shim = types.ModuleType("enum")
+_enum_shim.__dict__.update({k: v for k, v in _enum.__dict__.items() if not k.startswith("__")})
+_enum_shim.Enum = _SymEnum
+_enum_shim.IntEnum = _SymIntEnum
+_enum_shim.EnumMeta = _SymEnumMeta
+
+
 class Loader:
     def __init__(self, src_root: Optional[str] = None, path_cls=None, shutil_mod=None) -> None:
         self.src_root = src_root or SRC_ROOT
@@ -107,6 +140,8 @@ class Loader:
         top = name.split(".")[0]
         if top == "numpy":
             return symnp
+        if name == "enum":
+            return _enum_shim
         if name == "struct":
             return shims.struct
         if name == "io":
